@@ -38,6 +38,10 @@ pub trait Suite: RandomizedCiphersuite {
     ) -> Result<frost::round2::SignatureShare<Self>, frost::Error<Self>> {
         panic!("sign_with_tweak on a non-Taproot suite")
     }
+    /// Taproot only: (verifying key, valid signature, mirrored signature) made by the harness's own BIP-340 signer.
+    fn harness_bip340_pair(_p: &mut crate::prng::Prng, _msg: &[u8]) -> Option<(frost::VerifyingKey<Self>, frost::Signature<Self>, frost::Signature<Self>)> {
+        None
+    }
     fn aggregate_with_tweak(
         _pkg: &frost::SigningPackage<Self>,
         _shares: &std::collections::BTreeMap<Identifier<Self>, frost::round2::SignatureShare<Self>>,
@@ -246,6 +250,13 @@ impl Suite for frost_secp256k1_tr::Secp256K1Sha256TR {
         root: Option<&[u8]>,
     ) -> Result<frost::Signature<Self>, frost::Error<Self>> {
         frost_secp256k1_tr::aggregate_with_tweak(pkg, shares, pk, root)
+    }
+    fn harness_bip340_pair(p: &mut crate::prng::Prng, msg: &[u8]) -> Option<(frost::VerifyingKey<Self>, frost::Signature<Self>, frost::Signature<Self>)> {
+        let d0 = sc_random_nonzero::<Self>(p);
+        let k0 = sc_random_nonzero::<Self>(p);
+        let (good, mirror) = crate::taproot::bip340_sign_pair(d0, k0, msg);
+        let vk = vkey_from_element::<Self>(&base::<Self>(d0))?;
+        Some((vk, frost::Signature::<Self>::deserialize(&good).ok()?, frost::Signature::<Self>::deserialize(&mirror).ok()?))
     }
     fn tweak_pk(pk: frost::keys::PublicKeyPackage<Self>, root: Option<&[u8]>) -> frost::keys::PublicKeyPackage<Self> {
         use frost_secp256k1_tr::keys::Tweak;
